@@ -88,7 +88,13 @@ LimitClauses(stim, cli, srvMsgs, srvSeen) ==
 (* ---- request head (C03, C05 client side, C08) *)
 ReqHeadClauses(stim, h, reqMeta) ==
   << <<"C03.PostHttp2", h.method = "POST" /\ h.version = "HTTP/2.0">>,
-     <<"C03.Path", h.path = PathOf[stim.shape]>>,
+     \* client.origin_prefix (optional): the client was given an origin with a path prefix; the method path follows the prefix (a slash that
+     \* ends the prefix may or may not be kept: the statement speaks of the method's path, not of how a prefix is joined to it)
+     <<"C03.Path", IF "origin_prefix" \in DOMAIN stim.client /\ stim.client.origin_prefix # <<>>
+                   THEN LET pre == stim.client.origin_prefix
+                            cut == IF pre[Len(pre)] = 47 THEN SubSeq(pre, 1, Len(pre) - 1) ELSE pre
+                        IN h.path \in {pre \o PathOf[stim.shape], cut \o PathOf[stim.shape]}
+                   ELSE h.path = PathOf[stim.shape]>>,
      <<"C03.ContentType", Values(h.list, "content-type") = <<S_appgrpc>> >>,
      <<"C03.TeTrailers", Values(h.list, "te") = <<S_trailers>> >>,
      <<"C05.ClientAnnouncesSendEncoding",
